@@ -234,7 +234,6 @@ def handle_call(sub: Sub, t: dict[str, Any], res: dict[str, Any]) -> None:
         sub.viol("call", key, ("false accept: CPython raises TypeError, mypy reports no arity/keyword diagnostic"
                                if rt_rejects else "false reject: mypy reports an arity/keyword diagnostic, the call succeeds")
                  + f": {witness['signature']} | {witness['call']}", witness)
-    _ = first
 
 
 CORPUS_SUITES = ["check-kwargs.test", "check-varargs.test", "check-functions.test", "check-typeddict.test",
@@ -473,15 +472,21 @@ def gen_reach(ctx: common.Ctx, n_combo: int) -> tuple[list[str], dict[str, tuple
     return conds, info
 
 
-def gen_reach_tasks(ctx: common.Ctx, conds: list[str], build_cfgs: list[tuple[tuple[int, int], str, bool]],
-                    nplat: int = 5) -> Iterator[dict[str, Any]]:
+def gen_reach_tasks(ctx: common.Ctx, conds: list[str], info: dict[str, Any],
+                    build_cfgs: list[tuple[tuple[int, int], str, bool]], nplat: int = 5) -> Iterator[dict[str, Any]]:
     for i, v in enumerate(G.VERSIONS):
         plats = G.PLATFORMS if nplat >= 5 else [G.PLATFORMS[(i + 2 * j) % 5] for j in range(nplat)]
         yield {"fn": T + "reach_direct", "args": {"conds": conds, "versions": [list(v)], "platforms": plats},
                "_kind": "reach", "_layer": "direct"}
-    half = (len(conds) + 1) // 2
+    # two self-contained halves: every combination travels with the comparisons it is made of
+    combos = [c for c in conds if c in info]
+    atoms = [c for c in conds if c not in info]
+    half = (len(atoms) + 1) // 2
+    second = atoms[half:]
+    have = set(second)
+    second = second + [a for c in combos for a in info[c][1] if a not in have and not have.add(a)] + combos  # type: ignore[func-returns-value]
     for (v, p, native) in build_cfgs:
-        for chunk in (conds[:half], conds[half:]):
+        for chunk in (atoms[:half], second):
             yield {"fn": T + "reach_build", "args": {"conds": chunk, "version": list(v), "platform": p, "native": native},
                    "_kind": "reach", "_layer": "build-native" if native else "build"}
 
@@ -868,7 +873,7 @@ def run(ctx: common.Ctx) -> None:
     def tasks() -> Iterator[dict[str, Any]]:
         gens = []
         if "reach" in only:
-            gens.append(gen_reach_tasks(ctx, conds, build_cfgs, nplat=2 if quick else 5))
+            gens.append(gen_reach_tasks(ctx, conds, combo_info, build_cfgs, nplat=2 if quick else 5))
         if "fold" in only:
             gens.append(gen_fold_tasks(d1, rnd, mypyc_every))
         if "mro" in only:
